@@ -3,7 +3,7 @@
 # four at a time, in scratch worktrees; the outcome is written to seeded/<name>/meta.json: final_tree_run
 SUF=${1:-"E F"}
 cd /verif
-run_one() { NAME=$1; ID=${NAME%%-*}; CHK=$ID; [ "$NAME" = "C13-C" ] && CHK=C20
+run_one() { NAME=$1; ID=${NAME%%-*}; CHK=$ID; { [ "$NAME" = "C13-C" ] || [ "$NAME" = "C13-G" ]; } && CHK=C20
   out=$(tools/try_seeded_wt.sh $NAME $CHK 2>&1 | grep "exit="); echo "$out"
   python3 - "$NAME" "$CHK" "$out" <<'PY'
 import json,sys,re,subprocess
